@@ -14,7 +14,13 @@ mod stubs;
 use framework::*;
 
 fn all_checks() -> Vec<Box<dyn DynCheck>> {
-    vec![Box::new(Erased(checks::c01::C01))]
+    vec![
+        Box::new(Erased(checks::c01::C01)),
+        Box::new(Erased(checks::c02::C02)),
+        Box::new(Erased(checks::c02::C06)),
+        Box::new(Erased(checks::c07::C07)),
+        Box::new(Erased(checks::c08::C08)),
+    ]
 }
 
 fn usage() -> i32 {
